@@ -118,6 +118,16 @@ theorem aipw_saturated (l : List (Row F)) (S : List Nat) (hS : Strata l S) (hpos
   · refine aipw0_of_outfit l S hS hpos hobs Q hQ p (fun s => 1 - p s) (fun s hs => ?_)
     have := (hp.mem_Ioo hpos hs).2; exact (sub_pos.mpr this).ne'
 
+/-- **Tie to the source (AIPTW).**  `aipw_calculator`, regenerated from its text on every run (NaN outcomes skipped
+    exactly as numpy's `nanmean` / NaN masks do), returns on data without missing outcomes the difference — or, for the
+    ratio, the quotient — of the model's two pseudo-outcome means `aipw1`, `aipw0`, weighted or not. -/
+theorem aipw_calc_generated (difference hasWeights : Bool) (nanv : F) (l : List (Row F)) (hobs : ∀ r ∈ l, r.obs = true)
+    (hw : hasWeights = false → ∀ r ∈ l, r.w = 1) (py_a py_n pa1 pa0 : Row F → F) :
+    let Q : Row F → Bool → F := fun r a => if a then py_a r else py_n r
+    (Gen.aipw_calc difference hasWeights nanv l py_a py_n pa1 pa0).1
+      = if difference then aipw1 l Q pa1 pa0 - aipw0 l Q pa1 pa0 else aipw1 l Q pa1 pa0 / aipw0 l Q pa1 pa0 :=
+  aipw_calc_eq difference hasWeights nanv l hobs hw py_a py_n pa1 pa0
+
 /-! ### Non-vacuity: a concrete data set satisfying every hypothesis -/
 
 /-- 2 strata × 2 arms, unequal cell sizes and weights -/
